@@ -312,10 +312,11 @@ func optTableTie(c *Ctx) {
 			switch mode {
 			case 0:
 				vecs[i][s] = uint64(rng.Intn(1000))
-			case 1: // Fibonacci: deepest trees, exercises the 32 -> 16 limiting
-				if j < 30 {
+			case 1: // Fibonacci-like: deepest trees, exercises the 256 -> 16 limiting; with more than
+				// 32 such symbols the unrestricted tree is deeper than 32 (finding F48)
+				if j < 60 {
 					vecs[i][s] = a
-					a, b = b, a+b
+					a, b = b, a+b+uint64(i%2)
 				} else {
 					vecs[i][s] = uint64(rng.Intn(3))
 				}
@@ -325,6 +326,15 @@ func optTableTie(c *Ctx) {
 				vecs[i][s] = uint64(1 + rng.Intn(4)) // many ties
 			}
 		}
+	}
+	// the F48 witness itself: symbols 0..32 with a(1)=a(2)=1, a(k)=a(k-1)+a(k-2)+1
+	if n > 0 {
+		var f48 [256]uint64
+		f48[0], f48[1] = 1, 1
+		for k := 2; k <= 32; k++ {
+			f48[k] = f48[k-1] + f48[k-2] + 1
+		}
+		vecs[0] = f48
 	}
 	ParallelFor(n, c.Work, func(i int) {
 		f := vecs[i]
